@@ -13,6 +13,7 @@ import (
 	"sync"
 	"time"
 
+	blocks "github.com/ipfs/go-block-format"
 	"github.com/ipfs/go-cid"
 	"github.com/ipfs/go-graphsync"
 	"github.com/ipfs/go-graphsync/cidset"
@@ -24,6 +25,7 @@ import (
 	cidlink "github.com/ipld/go-ipld-prime/linking/cid"
 	"github.com/ipld/go-ipld-prime/traversal"
 	"github.com/libp2p/go-libp2p/core/peer"
+	mh "github.com/multiformats/go-multihash"
 
 	"verifharness/dagreal"
 	"verifharness/verifnet"
@@ -42,14 +44,25 @@ type exCase struct {
 	Sr       []int `json:"sr"`
 	UserSkip int   `json:"userSkip"`
 	// options beyond the enumerated core
-	Ignore     []int  `json:"ignore"` // do-not-send-cids (labels)
-	Keyed      bool   `json:"keyed"`
-	DedupKey   string `json:"dedupKey,omitempty"`
-	ReqBudget  int    `json:"reqBudget,omitempty"`  // MaxLinksPerOutgoingRequests (0 = unset)
-	RespBudget int    `json:"respBudget,omitempty"` // MaxLinksPerIncomingRequests
-	Budget     int    `json:"budget,omitempty"`
-	Where      string `json:"where,omitempty"` // reqG reqH reqGH reqHG respG respH respGH respHG
-	Mode       string `json:"mode,omitempty"`  // "" = real requestor + real responder; "rawreq" = raw requestor, real responder
+	Ignore     []int     `json:"ignore"` // do-not-send-cids (labels)
+	Keyed      bool      `json:"keyed"`
+	DedupKey   string    `json:"dedupKey,omitempty"`
+	ReqBudget  int       `json:"reqBudget,omitempty"`  // MaxLinksPerOutgoingRequests (0 = unset)
+	RespBudget int       `json:"respBudget,omitempty"` // MaxLinksPerIncomingRequests
+	Budget     int       `json:"budget,omitempty"`
+	Where      string    `json:"where,omitempty"` // reqG reqH reqGH reqHG respG respH respGH respHG
+	Adv        bool      `json:"adv"`
+	Script     []advItem `json:"script"`
+	Chunk      string    `json:"chunk,omitempty"` // "one" = one message per item, else all in one
+	Final      string    `json:"final,omitempty"` // terminal status sent after the script: full | failed | none
+	Forge      bool      `json:"forge,omitempty"` // items without genuine block carry a block with forged bytes under the claimed CID
+	Mode       string    `json:"mode,omitempty"`  // "" = real requestor + real responder; "rawreq" = raw requestor, real responder
+}
+
+type advItem struct {
+	C        int  `json:"c"`
+	Followed bool `json:"followed"`
+	Blk      bool `json:"blk"`
 }
 
 type wireItem struct {
@@ -59,23 +72,26 @@ type wireItem struct {
 }
 
 type exObs struct {
-	Delivered  []int      `json:"delivered"` // visits whose block was loaded, in order of first delivery
-	Missing    []int      `json:"missing"`   // visits reported by RemoteMissingBlockErr
-	OtherErrs  []string   `json:"otherErrs"`
-	BudgetErr  bool       `json:"budgetErr"`
-	Store      []int      `json:"store"`   // labels in the requestor store afterwards
-	NodesOK    bool       `json:"nodesOK"` // delivered node paths = reference node sequence restricted to delivered blocks
-	NNodes     int        `json:"nNodes"`
-	ReqSent    bool       `json:"reqSent"`
-	ReqSkip    int        `json:"reqSkip"`
-	CancelSent bool       `json:"cancelSent"`
-	ReqMsgs    int        `json:"reqMsgs"` // messages the requestor put on the network
-	Wire       []wireItem `json:"wire"`    // responder metadata in order, with whether the block was attached
-	Status     string     `json:"status"`  // terminal status seen on the wire
-	Hang       bool       `json:"hang"`
-	ReqLoads   int        `json:"reqLoads"`  // storage reads on the requestor
-	RespLoads  int        `json:"respLoads"` // storage reads on the responder
-	Note       string     `json:"note,omitempty"`
+	Delivered     []int      `json:"delivered"` // visits whose block was loaded, in order of first delivery
+	Missing       []int      `json:"missing"`   // visits reported by RemoteMissingBlockErr
+	OtherErrs     []string   `json:"otherErrs"`
+	BudgetErr     bool       `json:"budgetErr"`
+	NodesPrefixOK bool       `json:"nodesPrefixOK"`
+	Writes        []int      `json:"writes"`  // labels committed to the requestor store (-1 = not a block of the DAG)
+	BadHash       bool       `json:"badHash"` // some committed bytes do not hash to their link
+	Store         []int      `json:"store"`   // labels in the requestor store afterwards
+	NodesOK       bool       `json:"nodesOK"` // delivered node paths = reference node sequence restricted to delivered blocks
+	NNodes        int        `json:"nNodes"`
+	ReqSent       bool       `json:"reqSent"`
+	ReqSkip       int        `json:"reqSkip"`
+	CancelSent    bool       `json:"cancelSent"`
+	ReqMsgs       int        `json:"reqMsgs"` // messages the requestor put on the network
+	Wire          []wireItem `json:"wire"`    // responder metadata in order, with whether the block was attached
+	Status        string     `json:"status"`  // terminal status seen on the wire
+	Hang          bool       `json:"hang"`
+	ReqLoads      int        `json:"reqLoads"`  // storage reads on the requestor
+	RespLoads     int        `json:"respLoads"` // storage reads on the responder
+	Note          string     `json:"note,omitempty"`
 }
 
 func (c *exCase) tree() dagreal.Tree {
@@ -218,11 +234,16 @@ func runExCase(c exCase, timeout time.Duration) (obs exObs, err error) {
 		}
 	}
 	gsR := gsimpl.New(ctx, epR, stR.LinkSystem(), optsR...)
-	gsS := gsimpl.New(ctx, epS, stS.LinkSystem(), optsS...)
+	var gsS graphsync.GraphExchange
+	if c.Adv {
+		epS.SetDelegate(&advResponder{ep: epS, c: &c, d: d, ctx: ctx})
+	} else {
+		gsS = gsimpl.New(ctx, epS, stS.LinkSystem(), optsS...)
+	}
 	if hookR > 0 {
 		gsR.RegisterOutgoingRequestHook(func(p peer.ID, r graphsync.RequestData, ha graphsync.OutgoingRequestHookActions) { ha.MaxLinks(hookR) })
 	}
-	if hookS > 0 {
+	if hookS > 0 && gsS != nil {
 		gsS.RegisterIncomingRequestHook(func(p peer.ID, r graphsync.RequestData, ha graphsync.IncomingRequestHookActions) { ha.MaxLinks(hookS) })
 	}
 	var exts []graphsync.ExtensionData
@@ -243,8 +264,17 @@ func runExCase(c exCase, timeout time.Duration) (obs exObs, err error) {
 		n, _ := dedupkey.EncodeDedupKey(c.DedupKey)
 		exts = append(exts, graphsync.ExtensionData{Name: graphsync.ExtensionDeDupByKey, Data: n})
 	}
-	progress, errs := gsR.Request(ctx, pS, cidlink.Link{Cid: d.Root}, sel, exts...)
+	reqCtx, reqCancel := context.WithCancel(ctx)
+	defer reqCancel()
+	progress, errs := gsR.Request(reqCtx, pS, cidlink.Link{Cid: d.Root}, sel, exts...)
 	deadline := time.After(timeout)
+	if c.Adv && (c.Final == "none") {
+		// the adversary never finishes: give the requestor time to consume everything, then cancel the request
+		go func() {
+			time.Sleep(100 * time.Millisecond)
+			reqCancel()
+		}()
+	}
 	var gotNodes []dagreal.NodeVisit
 	deliveredSet := map[int]bool{}
 	missingSet := map[int]bool{}
@@ -308,6 +338,15 @@ func runExCase(c exCase, timeout time.Duration) (obs exObs, err error) {
 			}
 		}
 	}
+	obs.NodesPrefixOK = len(gotNodes) <= len(want)
+	if obs.NodesPrefixOK {
+		for i := range gotNodes {
+			if want[i] != gotNodes[i] {
+				obs.NodesPrefixOK = false
+				break
+			}
+		}
+	}
 	obs.NNodes = len(gotNodes)
 	sort.Ints(obs.Missing)
 	for _, cc := range stR.Cids() {
@@ -324,6 +363,12 @@ func runExCase(c exCase, timeout time.Duration) (obs exObs, err error) {
 		c2, err := pref.Sum(w.Data)
 		if err != nil || !c2.Equals(w.Link) {
 			obs.OtherErrs = append(obs.OtherErrs, "stored bytes do not hash to their link")
+			obs.BadHash = true
+		}
+		if l, ok := d.LabelOf[w.Link]; ok {
+			obs.Writes = append(obs.Writes, l)
+		} else {
+			obs.Writes = append(obs.Writes, -1)
 		}
 	}
 	// wire: the requestor may finish before the responder's terminal status arrives; wait for it
@@ -338,7 +383,7 @@ func runExCase(c exCase, timeout time.Duration) (obs exObs, err error) {
 			}
 		}
 	}
-	if sentNew && !obs.Hang {
+	if sentNew && !obs.Hang && !c.Adv {
 		for tries := 0; tries < 5000; tries++ {
 			if _, st := wireOf(log, pS, d); st != "" && st != "paused" {
 				break
@@ -379,7 +424,7 @@ func runExCase(c exCase, timeout time.Duration) (obs exObs, err error) {
 	}
 	obs.Wire, obs.Status = wireOf(log, pS, d)
 	obs.ReqLoads, obs.RespLoads = stR.NReads(), stS.NReads()
-	for _, e := range []*[]int{&obs.Delivered, &obs.Missing, &obs.Store} {
+	for _, e := range []*[]int{&obs.Delivered, &obs.Missing, &obs.Store, &obs.Writes} {
 		if *e == nil {
 			*e = []int{}
 		}
@@ -464,4 +509,76 @@ func exchRun(args []string) error {
 		enc.Encode(results[i])
 	}
 	return nil
+}
+
+// advResponder is a raw peer that answers the first new request with the case's script.
+type advResponder struct {
+	ep   *verifnet.Endpoint
+	c    *exCase
+	d    *dagreal.DAG
+	ctx  context.Context
+	once sync.Once
+}
+
+func (a *advResponder) ReceiveError(p peer.ID, err error) {}
+func (a *advResponder) Connected(p peer.ID)               {}
+func (a *advResponder) Disconnected(p peer.ID)            {}
+func (a *advResponder) ReceiveMessage(ctx context.Context, sender peer.ID, m gsmsg.GraphSyncMessage) {
+	for _, r := range m.Requests() {
+		if r.Type() != graphsync.RequestTypeNew {
+			continue
+		}
+		id := r.ID()
+		a.once.Do(func() { go a.play(sender, id) })
+	}
+}
+
+func (a *advResponder) cidFor(label int) (cid.Cid, []byte) {
+	if c, ok := a.d.ByLabel[label]; ok {
+		return c, a.d.Blocks[c]
+	}
+	data := []byte(fmt.Sprintf("foreign-block-%d-%d", a.c.ID, label))
+	h, _ := mh.Sum(data, mh.SHA2_256, -1)
+	return cid.NewCidV1(cid.Raw, h), data
+}
+
+func (a *advResponder) play(to peer.ID, id graphsync.RequestID) {
+	var chunks [][]advItem
+	if a.c.Chunk == "one" {
+		for _, it := range a.c.Script {
+			chunks = append(chunks, []advItem{it})
+		}
+	} else if len(a.c.Script) > 0 {
+		chunks = [][]advItem{a.c.Script}
+	}
+	send := func(items []advItem, status graphsync.ResponseStatusCode) {
+		var md []gsmsg.GraphSyncLinkMetadatum
+		blks := map[cid.Cid]blocks.Block{}
+		for _, it := range items {
+			c, data := a.cidFor(it.C)
+			act := graphsync.LinkActionMissing
+			if it.Followed {
+				act = graphsync.LinkActionPresent
+			}
+			md = append(md, gsmsg.GraphSyncLinkMetadatum{Link: c, Action: act})
+			if it.Blk {
+				b, _ := blocks.NewBlockWithCid(data, c)
+				blks[c] = b
+			} else if a.c.Forge {
+				b, _ := blocks.NewBlockWithCid([]byte("forged bytes for "+c.String()), c)
+				blks[c] = b
+			}
+		}
+		msg := gsmsg.NewMessage(nil, map[graphsync.RequestID]gsmsg.GraphSyncResponse{id: gsmsg.NewResponse(id, status, md)}, blks)
+		_ = a.ep.SendMessage(a.ctx, to, msg)
+	}
+	for _, ch := range chunks {
+		send(ch, graphsync.PartialResponse)
+	}
+	switch a.c.Final {
+	case "full":
+		send(nil, graphsync.RequestCompletedFull)
+	case "failed":
+		send(nil, graphsync.RequestFailedUnknown)
+	}
 }
